@@ -489,7 +489,8 @@ PRIORS = [
 
 def base_states(tier, shapes, md=True):
     """distinct-valued matrices of the given shapes x layouts x stored zeros x metadata kinds x ID alphabets"""
-    mds = [('none', 'none'), ('text', 'tax'), ('num', 'slash')] if md else [('none', 'none')]
+    # metadata on both axes, on neither, and on exactly one axis (a shortcut that looks at one axis only shows there)
+    mds = [('none', 'none'), ('text', 'tax'), ('num', 'slash'), ('text', 'none'), ('none', 'tax')] if md else [('none', 'none')]
     for (m, n) in shapes:
         dm = _distinct(m, n)
         j = 0
@@ -558,7 +559,9 @@ def sort_order_reject_cases(tier):
 def _sortable_states(tier):
     # IDs whose natural, lexicographic and length orders all differ
     idsets = [{'observation': ['O10', 'O9', 'O1', 'O100'], 'sample': ['S2', 'S11', 'S1']},
-              {'observation': ['b', 'a10', 'a9'], 'sample': ['x1y10', 'x1y2', 'x10y1', 'w']}]
+              {'observation': ['b', 'a10', 'a9'], 'sample': ['x1y10', 'x1y2', 'x10y1', 'w']},
+              # already ascending as plain strings, not in natural order (a "nothing to do" shortcut shows here)
+              {'observation': ['O1', 'O10', 'O2'], 'sample': ['S1', 'S10', 'S2', 'S3']}]
     for ids in idsets:
         dm = _distinct(len(ids['observation']), len(ids['sample']))
         for lay, z in _variants(dm):
